@@ -98,7 +98,7 @@ class RemoteStub:
             self.reply(mid, meta)
         elif func == "create":
             num, model = args
-            ents = [{"eid": f"E{self.nent + i}", "type": model} for i in range(num)]
+            ents = [{"eid": f"E{self.nent + i}" + (ctx.scn.get("eid_suffix") or ""), "type": model} for i in range(num)]
             self.nent += num
             self.reply(mid, ents)
         elif func == "setup_done":
